@@ -3,7 +3,7 @@
    is in the comment above it; what is NOT proved is said there too. *)
 From VP Require Import Base.Tactics Zdd.Model Zdd.ProofsBase Zdd.ProofsPwo Zdd.ProofsArena
   Sase.Model Sase.ProofsBounds Sase.ProofsSound Sase.ProofsSoundEngine Sase.ProofsCompile Sase.ProofsPattern Sase.ProofsKleene Sase.ProofsKeyed
-  Sase.Ref Sase.ProofsExactRef Sase.ProofsExactLoop Sase.ProofsExactRun Sase.ProofsExact Sase.ProofsExactText Sase.ProofsNoPanic Sase.ProofsExactKeys Sase.ProofsKleeneEngine.
+  Sase.Ref Sase.ProofsExactRef Sase.ProofsExactLoop Sase.ProofsExactRun Sase.ProofsExact Sase.ProofsExactText Sase.ProofsNoPanic Sase.ProofsExactKeys Sase.ProofsKleeneEngine Sase.ProofsKleeneBound.
 From Coq Require Import Permutation.
 
 (* ------------------------------------------------------------------ C01 *)
@@ -154,9 +154,30 @@ Theorem C05_step_never_panics :
   forall g en x, closed (g_nfa g) -> engine_safe (g_nfa g) en ->
     exists en' ms, process g en x = Some (en', ms) /\ engine_safe (g_nfa g) en'.
 Proof. exact process_total. Qed.
-(* Not proved for C05: the bound on the number of Kleene events kept per run (it is
-   max_kleene_events per `all` step, not per run: a second `all` step counts on top of the
-   first's capture).  Covered by the differential check and its stack-length oracle only. *)
+(* Each partial match keeps at most the configured number of Kleene events: for every pattern
+   with at most one `all` step, max_kleene_events >= 1, every configuration and stream, the
+   Kleene capture of every live run of the engine state reached holds at most max_kleene_events
+   events.  (With two `all` steps the second counts on top of the first's capture; that case is
+   covered by the differential check's oracle only.) *)
+Theorem C05_kleene_events_bound :
+  forall steps negs part max_runs st lim evs en',
+    count_all steps <= 1 -> (1 <= max_events lim)%N ->
+    run_engine (mkCfg (compile steps) negs part max_runs st lim) engine0 evs = Some en' ->
+    forall r, (In r (e_runs en') \/ exists k rs, In (k, rs) (e_parts en') /\ In r rs) -> r_inval r = false ->
+      forall k, r_kc r = Some k -> (N.of_nat (length (k_events k)) <= max_events lim)%N.
+Proof.
+  intros steps negs part mx st lim evs en' C M1 H r Hr Iv k Hk.
+  destruct (C03_engine_captures_are_power_sets steps negs part mx st lim evs en' C H r Hr Iv k Hk) as [K _].
+  rewrite (ki_len k K).
+  set (g := mkCfg (compile steps) negs part mx st lim).
+  assert (I0 : eng_RQ (kb (g_nfa g) (g_lim g)) engine0) by (split; constructor).
+  destruct (stream_kb g (compile_single_kleene steps C) (compile_forward steps) (compile_eforward steps) M1 evs engine0 en' I0 H) as [Fr Fp].
+  assert (G : RQ (kb (g_nfa g) (g_lim g)) r).
+  { destruct Hr as [Hr|(k0 & rs & Hp & Hr)].
+    - rewrite Forall_forall in Fr. exact (Fr r Hr).
+    - rewrite Forall_forall in Fp. specialize (Fp (k0, rs) Hp). cbn in Fp. rewrite Forall_forall in Fp. exact (Fp r Hr). }
+  destruct G as [G|G]; [congruence|]. exact (proj1 (G k Hk)).
+Qed.
 
 (* non-vacuity: a concrete engine run that emits matches and hits the run limit *)
 Example C05_bound_reached :
